@@ -161,3 +161,45 @@ Proof.
     cbn [obind]; unfold game_of_valve; cbn [r_info r_players r_rules];
     try (subst i5; projs); try (subst i4; projs); try (subst i3; projs); try (subst i2; projs); try (subst i1; projs); reflexivity.
 Qed.
+
+(* ---------- the queries ---------- *)
+Section Queries.
+  Variable bz : bytes -> N -> outcome bytes.
+
+  Theorem theship_roundtrip : forall port t st o,
+    wf_state ship_engine st = true -> settings_ok t -> retries_ok t ->
+    reply_ok bz ship_engine 0 (vo_info o) (enc_info (vs_info st)) ->
+    reply_ok bz ship_engine (info_protocol_of (vs_info st)) (vo_players o) (enc_players (vs_players st)) ->
+    reply_ok bz ship_engine (info_protocol_of (vs_info st)) (vo_rules o) (enc_rules (vs_rules st)) ->
+    fst (theship_query bz port t (net_init (map Datagram (valve_script st o gathering_default)) [] [])) = ship_expected st.
+  Proof.
+    intros port t st o Hwf Hs Hr R1 R2 R3.
+    pose proof (valve_roundtrip bz port ship_engine gathering_default t st o Hwf Hs Hr R1 R2 R3) as RT.
+    unfold theship_query, mbind.
+    change (Valve.query bz port (Source (Some (2400, None))) None t) with (Valve.query bz port ship_engine (Some gathering_default) t).
+    destruct (Valve.query bz port ship_engine (Some gathering_default) t (net_init (map Datagram (valve_script st o gathering_default)) [] [])) as [out n].
+    cbn [fst] in RT. subst out. unfold ship_expected.
+    destruct (valve_expected_outcome st ship_engine gathering_default) as [r|e| | |]; cbn [obind fst mlift]; try reflexivity.
+    rewrite ship_of_valve_spec. cbv zeta. unfold ship_player_of.
+    destruct (si_the_ship (r_info r)), (r_players r), (r_rules r); reflexivity.
+  Qed.
+
+  Theorem battalion_roundtrip : forall port st o,
+    wf_state bat_engine st = true ->
+    reply_ok bz bat_engine 0 (vo_info o) (enc_info (vs_info st)) ->
+    reply_ok bz bat_engine (info_protocol_of (vs_info st)) (vo_players o) (enc_players (vs_players st)) ->
+    reply_ok bz bat_engine (info_protocol_of (vs_info st)) (vo_rules o) (enc_rules (vs_rules st)) ->
+    fst (battalion_query bz port (net_init (map Datagram (valve_script st o gathering_default)) [] [])) = bat_expected st.
+  Proof.
+    intros port st o Hwf R1 R2 R3.
+    assert (Hs : settings_ok None) by (cbn; split; intros d H; inversion H; reflexivity).
+    pose proof (valve_roundtrip bz port bat_engine gathering_default None st o Hwf Hs I R1 R2 R3) as RT.
+    unfold battalion_query. unfold mbind at 1.
+    change (Valve.query bz port (Source (Some (489940, None))) None None) with (Valve.query bz port bat_engine (Some gathering_default) None).
+    destruct (Valve.query bz port bat_engine (Some gathering_default) None (net_init (map Datagram (valve_script st o gathering_default)) [] [])) as [out n].
+    cbn [fst] in RT. subst out. unfold bat_expected.
+    destruct (valve_expected_outcome st bat_engine gathering_default) as [r|e| | |]; cbn [obind fst]; try reflexivity.
+    pose proof (bat_overrides_spec r) as B. unfold bat_spec in B. cbv zeta in B. rewrite <- B.
+    unfold mbind, mlift, mret. destruct (bat_overrides r); reflexivity.
+  Qed.
+End Queries.
